@@ -554,6 +554,10 @@ func checkC06(p *Prog, r *Report) {
 		r.Check(ok && n > 0, "peer-reflexive candidate address is canonical", p.Pos(f.Body.Pos()), "Address: canonicalAddr(remote.Addr()).String()", "the peer-reflexive candidate's address string is not derived from canonicalAddr: for an IPv4-in-IPv6 source it differs from the signalled candidate's spelling, the prflx candidate is not superseded and the transport-address pair is listed twice under two ids")
 	}
 
+	// ---- R6.11 a cancelled gather cycle contributes nothing ----------------------------------------------------------
+	r.Rule("R6.11", "A task that a function submits to the loop on behalf of a gather cycle (the function has a context parameter other than the loop) and that writes agent state re-checks that context inside the task before it touches anything: taskloop.Run can accept the task after the cycle was cancelled by Restart (both cases of its select ready), so a check made before submitting does not keep a cancelled cycle's candidate or state out of the new generation.", 2)
+	checkCycleTasksRecheck(p, r)
+
 	// ---- R6.9 nothing is sent for a generation that was just wiped -----------------------------------------------
 	r.Rule("R6.9", "In the check tick, a round that fails the agent (initial checking deadline) ends there: the selector is not asked to contact candidates after the Failed wipe in the same task, so no request of the wiped generation is recorded as outstanding (table shared with C04 R4.5).", 6)
 	checkTickDiscipline(p, r)
@@ -744,5 +748,132 @@ func checkFailedWipe(p *Prog, r *Report, ucs *Func) {
 			}, 2)
 		}
 		r.Check(ok, "Failed calls "+strings.TrimPrefix(need, "ice.Agent."), p.Pos(ucs.Body.Pos()), "on every path of the Failed branch", "a path of the Failed transition does not call "+need)
+	}
+}
+
+// generationScoped: the state a gather cycle contributes to and Restart resets.
+var generationScoped = map[string]bool{
+	"Agent.localCandidates": true, "Agent.remoteCandidates": true, "Agent.checklist": true, "Agent.pairsByID": true,
+	"Agent.pendingBindingRequests": true, "Agent.gatheringState": true, "Agent.selectedPair": true,
+	"handlerNotifier.candidates": true,
+}
+
+// checkCycleTasksRecheck (R6.11).
+func checkCycleTasksRecheck(p *Prog, r *Report) {
+	n := 0
+	for _, f := range p.AllFuncs {
+		if f.Pkg != p.Ice || f.Body == nil || f.Decl == nil || f.Type.Params == nil {
+			continue
+		}
+		// the cycle context: a context.Context parameter
+		var ctxObj types.Object
+		for _, fl := range f.Type.Params.List {
+			if typeStr(p.TypeOf(fl.Type)) != "context.Context" {
+				continue
+			}
+			for _, nm := range fl.Names {
+				if nm.Name != "_" && ctxObj == nil {
+					ctxObj = p.ObjOf(nm)
+				}
+			}
+		}
+		if ctxObj == nil {
+			continue
+		}
+		for _, c := range p.CallsTo(f, false, "taskloop.Loop.Run") {
+			if len(c.Args) != 2 {
+				continue
+			}
+			sel, ok := unparen(c.Fun).(*ast.SelectorExpr)
+			if !ok || !p.IsField(sel.X, "Agent.loop") {
+				continue
+			}
+			lit, ok := unparen(c.Args[1]).(*ast.FuncLit)
+			if !ok {
+				continue
+			}
+			task := p.ByLit[lit]
+			if task == nil {
+				continue
+			}
+			// only tasks that write the state of the generation
+			writes := false
+			for fv := range p.Effects(task).WritesT {
+				if generationScoped[p.FieldName(fv)] {
+					writes = true
+				}
+			}
+			if !writes {
+				continue
+			}
+			n++
+			g := p.CFG(task)
+			isRecheckNode := func(nd ast.Node) bool {
+				found := false
+				for _, cc := range p.NodeCalls(nd) {
+					if p.CalleeName(cc) == "context.Context.Err" {
+						if s2, ok := unparen(cc.Fun).(*ast.SelectorExpr); ok {
+							if id, ok := unparen(s2.X).(*ast.Ident); ok && p.ObjOf(id) == ctxObj {
+								found = true
+							}
+						}
+					}
+				}
+				return found
+			}
+			// every node of the task that does anything else is reached only over the edge "ctx.Err() == nil"
+			bad := ""
+			for _, b := range g.Blocks {
+				for _, nd := range b.Nodes {
+					if isRecheckNode(nd) || bad != "" {
+						continue
+					}
+					// only what changes the state of the generation (directly, or through a callee) needs the
+					// re-check: the tables Restart wipes, the gathering state, and the candidate event stream
+					writesAgent := false
+					for _, cc := range p.NodeCalls(nd) {
+						for fv := range p.CallWrites(task, cc) {
+							if generationScoped[p.FieldName(fv)] {
+								writesAgent = true
+							}
+						}
+					}
+					if as, isAs := nd.(*ast.AssignStmt); isAs {
+						for _, l := range as.Lhs {
+							for _, fv := range p.lhsFields(l) {
+								if generationScoped[p.FieldName(fv)] {
+									writesAgent = true
+								}
+							}
+						}
+					}
+					if !writesAgent {
+						continue
+					}
+					ok := factListHas(p.DominatingFactList(task, nd), func(ft Fact) bool {
+						if ft.Op != "==" || !ft.Val || !p.isNilExpr(ft.Y) {
+							return false
+						}
+						cc, _, okC := p.ResolveCall(task, ft.X)
+						if !okC || p.CalleeName(cc) != "context.Context.Err" {
+							return false
+						}
+						s2, okS := unparen(cc.Fun).(*ast.SelectorExpr)
+						if !okS {
+							return false
+						}
+						id, okI := unparen(s2.X).(*ast.Ident)
+						return okI && p.ObjOf(id) == ctxObj
+					})
+					if !ok {
+						bad = p.Pos(nd.Pos())
+					}
+				}
+			}
+			r.Check(bad == "", "cycle task of "+f.Name+" re-checks its cycle inside the task", p.Pos(c.Pos()), "every change of agent state in the task is dominated by ctx.Err() == nil, tested inside the task", "the statement at "+bad+" runs without the task having re-checked the cycle's context: a cycle cancelled by Restart between the caller's check and the loop accepting the task still changes the new generation")
+		}
+	}
+	if n < 2 {
+		r.Fail("cycle tasks", "agent.go", "fewer than 2 loop tasks submitted on behalf of a gather cycle found (rule instance lost)")
 	}
 }
